@@ -32,6 +32,14 @@ type bookSpec struct {
 	Sheets   []sheetSpec
 	BookMeta map[string]string // the '#' row of the metasheet, nil = none
 	NoMeta   bool              // do not write a metasheet at all
+	MetaName string            // name of the metasheet (default "@TABLEAU")
+}
+
+func (b bookSpec) metaName() string {
+	if b.MetaName != "" {
+		return b.MetaName
+	}
+	return "@TABLEAU"
 }
 
 type workspace struct {
@@ -180,7 +188,7 @@ func (w *workspace) writeCSVBook(subdir string, b bookSpec) {
 		writeCSV(filepath.Join(dir, b.Name+"#"+s.Name+".csv"), s.Rows)
 	}
 	if !b.NoMeta {
-		writeCSV(filepath.Join(dir, b.Name+"#@TABLEAU.csv"), metasheetRows(b))
+		writeCSV(filepath.Join(dir, b.Name+"#"+b.metaName()+".csv"), metasheetRows(b))
 	}
 }
 
@@ -206,6 +214,7 @@ type runOpts struct {
 	DryRun         options.DryRun
 	ProtoOut       *options.ProtoOutputOption // proto output options (default: none set)
 	ConfSubdir     string                     // conf output Subdir (default: none)
+	MetasheetName  string                     // custom metasheet name (default: none)
 }
 
 func (o runOpts) pkg() string {
@@ -227,7 +236,7 @@ func (w *workspace) genProto(o runOpts, paths ...string) error {
 		lang = "en"
 	}
 	po := &options.ProtoOption{
-		Input:  &options.ProtoInputOption{Header: o.Header, ProtoPaths: append([]string{w.Proto}, o.ProtoPaths...), ProtoFiles: o.ProtoFiles, Formats: fmts, Subdirs: o.Subdirs, SubdirRewrites: o.SubdirRewrites},
+		Input:  &options.ProtoInputOption{Header: o.Header, ProtoPaths: append([]string{w.Proto}, o.ProtoPaths...), ProtoFiles: o.ProtoFiles, Formats: fmts, Subdirs: o.Subdirs, SubdirRewrites: o.SubdirRewrites, MetasheetName: o.MetasheetName},
 		Output: &options.ProtoOutputOption{},
 	}
 	if o.ProtoOut != nil {
